@@ -41,6 +41,9 @@ def build_driver(scratch, tags="verif", race=False):
     out = scratch.path("drive" + ("-race" if race else "") + "-" + tags.replace(" ", "_"))
     if os.path.exists(out):
         return out
+    if not os.path.exists(os.path.join(VERIF, "harness", "winref", "winref_gen.go")):
+        # the Windows comparator of C13 is generated from the toolchain sources, not kept in the repository
+        subprocess.run([sys.executable, os.path.join(VERIF, "lib", "genwinref.py")], check=True, env=GOENV)
     cmd = ["go", "build", "-tags", tags, "-o", out]
     if race:
         cmd.insert(2, "-race")
